@@ -150,24 +150,27 @@ type LogLine struct {
 
 // Stor is the checker storage.
 type Stor struct {
-	mu       sync.Mutex
-	files    map[storage.FileDesc]*gen
-	meta     storage.FileDesc
-	hasMeta  bool
-	locked   bool
-	closed   bool
-	nextGen  int
-	record   bool
-	ops      []Op
-	opCount  int64
-	gens     map[int]*gen // every generation ever created (record mode)
-	counts   [NOpKinds][5]int64
-	faults   []*Fault
-	gates    []*Gate
-	frozen   bool
-	sentinel []Sentinel
-	logs     []LogLine
-	keepLogs bool
+	mu           sync.Mutex
+	files        map[storage.FileDesc]*gen
+	meta         storage.FileDesc
+	hasMeta      bool
+	locked       bool
+	closed       bool
+	nextGen      int
+	record       bool
+	ops          []Op
+	opCount      int64
+	gens         map[int]*gen // every generation ever created (record mode)
+	counts       [NOpKinds][5]int64
+	faults       []*Fault
+	gates        []*Gate
+	frozen       bool
+	sentinel     []Sentinel
+	logs         []LogLine
+	keepLogs     bool
+	everLocked   bool
+	unownedOps   int64
+	firstUnowned string
 	// state at the start of recording (for storages cloned from an earlier one)
 	initFiles map[storage.FileDesc]*gen
 	initMeta  storage.FileDesc
@@ -221,6 +224,17 @@ func (s *Stor) rec(op Op) Op {
 		s.ops = append(s.ops, op)
 	}
 	s.counts[op.Kind][bucket(op.Fd.Type)]++
+	if !s.locked && op.Kind != OpLock && op.Kind != OpUnlock && op.Kind != OpStorClose && s.everLocked {
+		// a storage operation by someone who does not own the storage (e.g. a DB that has
+		// already released its lock)
+		s.unownedOps++
+		if s.firstUnowned == "" {
+			s.firstUnowned = op.String()
+		}
+	}
+	if op.Kind == OpLock && !op.Err {
+		s.everLocked = true
+	}
 	if s.frozen && op.Kind.Mutating() {
 		buf := make([]byte, 16384)
 		n := runtime.Stack(buf, false)
@@ -323,6 +337,14 @@ func (s *Stor) Unfreeze() {
 	s.mu.Lock()
 	s.frozen = false
 	s.mu.Unlock()
+}
+
+// UnownedOps returns how many storage operations were performed while nobody held the
+// storage lock (after the first Lock), and the first of them.
+func (s *Stor) UnownedOps() (int64, string) {
+	s.mu.Lock()
+	defer s.mu.Unlock()
+	return s.unownedOps, s.firstUnowned
 }
 
 // Sentinels returns the mutating operations seen while frozen.
